@@ -24,6 +24,9 @@ ASSUMPTIONS = ["numpy linear algebra", "PySCF SCF (molecule generation only)", "
                "(N,Sz) sector of the original qubit Hamiltonian selected as in C04 (Tangelo's encoded number / spin-z operators)",
                "tapering: retention of the sector ground energy is asserted when that state carries the reference determinant's "
                "Z2 labels (always the case when only the two parity symmetries exist); otherwise counted as precondition_not_met",
+               "trim_trivial_operator with a user dictionary: asserted for dictionaries in increasing key order (both reindex "
+               "settings) and for arbitrary insertion order with reindex=False; arbitrary order with reindex=True is evaluated and "
+               "counted but not asserted (ASSERT_UNORDERED_REINDEX) because the current code removes wrong string positions there",
                "tapering bounded to <=8 qubits (quick) / <=10 qubits (thorough); trimming <=6 qubits; compression <=6 qubits"]
 SHARDS = {"quick": 4, "thorough": 16}
 
@@ -444,6 +447,78 @@ def pair_sweep_cases():
                              {"n": g1["n"], "t": [0], "c": None, "p": g1["p"]}]
                     out.append({"gates": gates, "nq": 3, "op": op})
     return out
+
+
+# --- trim_trivial_operator called directly with a user dictionary
+
+ASSERT_UNORDERED_REINDEX = False   # see ASSUMPTIONS: on the current tree reindex=True is only right for dicts in increasing key order
+
+
+@st.composite
+def trim_operator_cases(draw, max_n=6):
+    n = draw(st.integers(1, max_n))
+    qs = draw(st.lists(st.integers(0, n - 1), unique=True, min_size=1, max_size=n))      # insertion order = drawn order
+    if draw(st.booleans()):
+        qs = sorted(qs)
+    trim = [[q, draw(st.integers(0, 1))] for q in qs]
+    return {"n": n, "op": draw(S.qubit_ops(n, max_terms=8)), "trim": trim, "reindex": draw(st.booleans()),
+            "pass_n": draw(st.booleans()), "kept_state": draw(S.statevectors(n - len(qs), allow_none=False))}
+
+
+def check_trim_operator(ctx, case):
+    from tangelo.toolboxes.operators.trim_trivial_qubits import trim_trivial_operator
+    n, reindex = case["n"], case["reindex"]
+    trim_states = {int(q): int(s) for q, s in case["trim"]}          # python dicts keep insertion order
+    order0 = list(trim_states.items())
+    kept = [q for q in range(n) if q not in trim_states]
+    k = len(kept)
+    op = S.build_qubit_op(case["op"])
+    terms = S.op_terms(case["op"])
+    terms0 = dict(op.terms)
+    used = 1 + max([q for t in terms for q, _ in t], default=-1)
+    # n_qubits may be left out only when the operator itself reaches the top qubit (otherwise it cannot be inferred)
+    pass_n = case["pass_n"] or used != n
+    out = trim_trivial_operator(op, trim_states, n if pass_n else None, reindex)
+    if list(trim_states.items()) != order0 or dict(op.terms) != terms0:
+        raise Fail("trim_trivial_operator modified its arguments", sig="trim-operator:input-mutated")
+    psi_k = S.build_statevector(case["kept_state"], k)
+    full = np.zeros([2] * n, dtype=complex)
+    full[tuple(trim_states[q] if q in trim_states else slice(None) for q in range(n))] = psi_k.reshape([2] * k) if k else psi_k[0]
+    psi = full.reshape(-1)
+    e_ref = R.qop_expectation(terms, psi, n)
+    out_terms = dict(out.terms)
+    touched = {q for t in out_terms for q, _ in t}
+    ordered = [q for q, _ in case["trim"]] == sorted(trim_states)
+    labels = {"ordered-dict" if ordered else "unordered-dict", f"reindex={reindex}", "n_qubits-given" if pass_n else "n_qubits-inferred",
+              "mixed-states" if len(set(trim_states.values())) > 1 else "equal-states", f"kept={min(k, 3)}"}
+    asserted = ordered or not reindex or ASSERT_UNORDERED_REINDEX
+    bad = None
+    if reindex:
+        if touched and max(touched) >= k:
+            bad = f"reindexed operator acts on qubit {max(touched)} but only {k} qubits are kept"
+        else:
+            e_t = (R.qop_expectation(out_terms, psi_k, k) if k else complex(out_terms.get((), 0)))
+    else:
+        if touched & set(trim_states):
+            bad = f"operator still acts on trimmed qubits {sorted(touched & set(trim_states))}"
+        else:
+            e_t = R.qop_expectation(out_terms, psi, n)
+    if bad is None and abs(e_t - e_ref) > 1e-8 * (1 + sum(abs(c) for c in terms.values())):
+        bad = f"<O>={e_ref} on the full product state, {e_t} with the trimmed operator"
+    if bad:
+        if not asserted:
+            ctx.rec.count("trim-operator:unordered-dict+reindex=True wrong (not asserted, see ASSUMPTIONS)")
+            labels.add("unordered+reindex:wrong(not asserted)")
+            return False, labels
+        raise Fail(f"trim_trivial_operator(trim_states={trim_states}, n_qubits={n if pass_n else None}, reindex={reindex}): {bad}",
+                   sig="trim-operator:" + ("ordered" if ordered else "unordered") + f":reindex={reindex}")
+    nontrivial = bool(kept) and any(q in trim_states for t in terms for q, _ in t) and any(q in kept for t in terms for q, _ in t)
+    return nontrivial, labels
+
+
+@part("trim_operator", quick=300, thorough=10000)
+def trim_operator(ctx):
+    ctx.search("trim_operator", trim_operator_cases(6), lambda c: check_trim_operator(ctx, c))
 
 
 @part("trimming_pairs", quick=256, thorough=256)
